@@ -188,6 +188,25 @@ func (k *Kernel) Yield(task int, point string) {
 	k.park(task, point)
 }
 
+// StartTask binds the calling goroutine to a task that has no goroutine yet
+// and parks it at point - unless the caller already is some task (the accept
+// loop asking for a connection's address, say).
+//
+//go:norace
+func (k *Kernel) StartTask(task int, point string) {
+	if !k.enabled || k.killed || task < 0 || k.goid[task] != 0 {
+		return
+	}
+	id := curGoid()
+	for t := 0; t < k.ntasks; t++ {
+		if k.goid[t] == id {
+			return
+		}
+	}
+	k.goid[task] = id
+	k.park(task, point)
+}
+
 // YieldHook is installed as the library's VerifYield: the task is found by
 // goroutine id.
 //
